@@ -440,8 +440,9 @@ def run(ctx: Check, tree: Tree) -> None:
     ctx.section(check_printers, ctx, tree)
     mats = ctx.section(check_siblings, ctx, tree)
     ctx.section(check_metric, ctx, tree)
-    ctx.section(check_lorentz, ctx, tree, mats)
-    ctx.section(check_general_boost, ctx, tree, mats)
+    if mats is not None:  # otherwise check_siblings already recorded why the matrices could not be extracted
+        ctx.section(check_lorentz, ctx, tree, mats)
+        ctx.section(check_general_boost, ctx, tree, mats)
     ctx.section(check_einsum_printers, ctx, tree)
     from .c14 import check_precedence
 
